@@ -5,7 +5,7 @@
 namespace yaclib::detail::fiber {
 
 void fiber::SharedMutex::lock() {
-  if (_occupied) {
+  while (_occupied) {
     _exclusive_queue.Wait(NoTimeoutTag{});
   }
   LockHelper();
@@ -30,7 +30,7 @@ void SharedMutex::unlock() noexcept {
 }
 
 void SharedMutex::lock_shared() {
-  if (_occupied && _exclusive_mode) {
+  while (_occupied && _exclusive_mode) {
     _exclusive_queue.Wait(NoTimeoutTag{});
   }
   SharedLockHelper();
